@@ -1,11 +1,14 @@
-(* Proofs for C10: the mirror of ensure_unique_variables renames every
-   occurrence to the name of the declaration the scope resolver of
-   Spec.ScopeSpec assigns to it, the renaming is injective on declarations,
-   the reports are exactly the resolver's shadowing set, duplicate parameters
-   are reported, the name.suffix split inverts the renaming and the repaired
-   SSA key is injective. *)
+(* Proofs for C10, first half: the mirror of ensure_unique_variables renames
+   every occurrence to the name of the declaration the stack resolver of
+   Proofs.ScopeStack (blocks are the only scopes, as in the pass) assigns to
+   it, on EVERY statement tree; the renaming is injective on declarations, the
+   reports are exactly that resolver's shadowing set, duplicate parameters are
+   reported, the name.suffix split inverts the renaming.  The step from the
+   stack resolver to the specification Spec.ScopeSpec.resolve (every loop body
+   and branch is a scope) is Proofs.ScopeBridge; the theorems of props/C10.v
+   are stated there. *)
 From Coq Require Import List NArith Arith Bool Lia Decimal DecimalNat.
-Require Import Model.Base Model.Ir Model.UniqueVars Spec.ScopeSpec.
+Require Import Gen.SsaKey Model.Base Model.Ir Model.UniqueVars Spec.ScopeSpec Proofs.ScopeStack.
 Import ListNotations.
 
 (* ------------------------------------------------------------------ *)
@@ -153,9 +156,9 @@ Proof.
 Qed.
 
 Lemma uses_spec : forall env st k uses, Inv env st ->
-  map (pair k) (map (rename_use env) uses) = map ren_of (map (use_occ k st) uses).
+  map (pair k) (map (rename_use env) uses) = map ren_of (map (stk_use_occ k st) uses).
 Proof.
-  intros. rewrite !map_map. apply map_ext. intros n. unfold use_occ, ren_of.
+  intros. rewrite !map_map. apply map_ext. intros n. unfold stk_use_occ, ren_of.
   rewrite (rename_use_spec env st n H). reflexivity.
 Qed.
 
@@ -290,14 +293,14 @@ End ustmt_ind_nested.
 
 Definition sim (s : ustmt) : Prop :=
   forall env reports st, Inv env st ->
-  forall o sh st', resolve s st = (o, sh, st') ->
+  forall o sh st', stk_resolve s st = (o, sh, st') ->
   exists s' env',
     visit s (env, reports) = Ok (s', (env', reports ++ map report_of sh)) /\
     Inv env' st' /\ length (sstack st') = length (sstack st) /\ occs s' = map ren_of o.
 
 Definition sim_list (ss : list ustmt) : Prop :=
   forall env reports st, Inv env st ->
-  forall o sh st', resolve_list resolve ss st = (o, sh, st') ->
+  forall o sh st', resolve_list stk_resolve ss st = (o, sh, st') ->
   exists ss' env',
     mapfold visit ss (env, reports) = Ok (ss', (env', reports ++ map report_of sh)) /\
     Inv env' st' /\ length (sstack st') = length (sstack st) /\ flat_map occs ss' = map ren_of o.
@@ -306,8 +309,8 @@ Lemma sim_list_of : forall ss, Forall sim ss -> sim_list ss.
 Proof.
   induction 1 as [|s ss Hs _ IH]; intros env reports st I o sh st' R; simpl in R.
   - inversion R; subst. exists [], env. simpl. rewrite app_nil_r. auto.
-  - destruct (resolve s st) as [[o1 sh1] st1] eqn:R1.
-    destruct (resolve_list resolve ss st1) as [[o2 sh2] st2] eqn:R2.
+  - destruct (stk_resolve s st) as [[o1 sh1] st1] eqn:R1.
+    destruct (resolve_list stk_resolve ss st1) as [[o2 sh2] st2] eqn:R2.
     inversion R; subst.
     destruct (Hs env reports st I _ _ _ R1) as (s' & env1 & V1 & I1 & L1 & O1).
     destruct (IH env1 (reports ++ map report_of sh1) st1 I1 _ _ _ R2) as (ss' & env2 & V2 & I2 & L2 & O2).
@@ -320,8 +323,8 @@ Lemma visit_sim : forall s, sim s.
 Proof.
   induction s using ustmt_ind_nested; intros env reports st I o sh st' R.
   - (* UBlock *)
-    apply sim_list_of in H. cbn [resolve] in R.
-    destruct (resolve_list resolve ss (push st)) as [[o1 sh1] st1] eqn:R1.
+    apply sim_list_of in H. cbn [stk_resolve] in R.
+    destruct (resolve_list stk_resolve ss (push st)) as [[o1 sh1] st1] eqn:R1.
     inversion R; subst.
     destruct (H _ reports _ (push_inv _ _ I) _ _ _ R1) as (ss' & env1 & V1 & I1 & L1 & O1).
     cbn [push sstack length] in L1.
@@ -334,11 +337,11 @@ Proof.
     + unfold pop. cbn [sstack]. rewrite E1. simpl in *. lia.
     + exact O1.
   - (* UInit *)
-    apply sim_list_of in H. cbn [resolve] in R.
+    apply sim_list_of in H. cbn [stk_resolve] in R.
     destruct (H _ reports _ I _ _ _ R) as (ss' & env1 & V1 & I1 & L1 & O1).
     exists (UInit ss'), env1. cbn [visit]. rewrite V1. auto.
   - (* UDecl *)
-    cbn [resolve] in R. inversion R; subst. clear R.
+    cbn [stk_resolve] in R. inversion R; subst. clear R.
     destruct (add_declaration_spec env st n l I) as (env' & A & I').
     cbn [visit]. rewrite A, (get_declaration_spec env st n I).
     assert (L : length (sstack (declare n l st)) = length (sstack st)).
@@ -360,30 +363,30 @@ Proof.
     + eexists. eexists. split; [reflexivity|]. split; [exact I'|]. split; [exact L|].
       cbn [occs]. rewrite map_app, (uses_spec env st OUse dims I). reflexivity.
   - (* USubst *)
-    cbn [resolve] in R. inversion R; subst. clear R.
+    cbn [stk_resolve] in R. inversion R; subst. clear R.
     eexists. eexists. cbn [visit]. rewrite app_nil_r. split; [reflexivity|]. split; [exact I|]. split; [reflexivity|].
     cbn [occs map]. rewrite (uses_spec env st' OUse uses I). f_equal.
-    unfold use_occ, ren_of. rewrite (rename_use_spec env st' n I). reflexivity.
+    unfold stk_use_occ, ren_of. rewrite (rename_use_spec env st' n I). reflexivity.
   - (* UExpr *)
-    cbn [resolve] in R. inversion R; subst. clear R.
+    cbn [stk_resolve] in R. inversion R; subst. clear R.
     eexists. eexists. cbn [visit]. rewrite app_nil_r. split; [reflexivity|]. split; [exact I|]. split; [reflexivity|].
     cbn [occs]. apply (uses_spec env st' OUse uses I).
   - (* UWhile *)
-    cbn [resolve] in R. destruct (resolve s st) as [[o1 sh1] st1] eqn:R1. inversion R; subst. clear R.
+    cbn [stk_resolve] in R. destruct (stk_resolve s st) as [[o1 sh1] st1] eqn:R1. inversion R; subst. clear R.
     destruct (IHs env reports st I _ _ _ R1) as (b' & env1 & V1 & I1 & L1 & O1).
     eexists. eexists. cbn [visit]. rewrite V1. split; [reflexivity|]. split; [exact I1|]. split; [exact L1|].
     cbn [occs]. rewrite map_app, (uses_spec env st OUse c I), O1. reflexivity.
   - (* UIf, no else *)
-    cbn [resolve] in R. destruct (resolve s st) as [[o1 sh1] st1] eqn:R1.
+    cbn [stk_resolve] in R. destruct (stk_resolve s st) as [[o1 sh1] st1] eqn:R1.
     destruct (IHs env reports st I _ _ _ R1) as (t' & env1 & V1 & I1 & L1 & O1).
     inversion R; subst. clear R.
     eexists. eexists. cbn [visit]. rewrite V1.
     split; [reflexivity|]. split; [exact I1|]. split; [exact L1|].
     cbn [occs]. rewrite !map_app, (uses_spec env st OUse c I), O1, app_nil_r. reflexivity.
   - (* UIf with else *)
-    cbn [resolve] in R. destruct (resolve s1 st) as [[o1 sh1] st1] eqn:R1.
+    cbn [stk_resolve] in R. destruct (stk_resolve s1 st) as [[o1 sh1] st1] eqn:R1.
     destruct (IHs1 env reports st I _ _ _ R1) as (t' & env1 & V1 & I1 & L1 & O1).
-    destruct (resolve s2 st1) as [[o2 sh2] st2] eqn:R2. inversion R; subst. clear R.
+    destruct (stk_resolve s2 st1) as [[o2 sh2] st2] eqn:R2. inversion R; subst. clear R.
     destruct (IHs2 env1 (reports ++ map report_of sh1) st1 I1 _ _ _ R2) as (e' & env2 & V2 & I2 & L2 & O2).
     eexists. eexists. cbn [visit]. rewrite V1, V2. rewrite map_app, app_assoc.
     split; [reflexivity|]. split; [exact I2|]. split; [congruence|].
@@ -452,15 +455,15 @@ Qed.
 (* ------------------------------------------------------------------ *)
 
 Lemma resolve_def_eq : forall params ploc body,
-  resolve_def params ploc body = fst (resolve body (declare_all params ploc st0)).
+  stk_resolve_def params ploc body = fst (stk_resolve body (declare_all params ploc st0)).
 Proof. reflexivity. Qed.
 
 Lemma ensure_cases : forall params ploc ss,
   (NoDup params /\ exists body' env',
      ensure_unique_variables params ploc (UBlock ss) =
-       Renamed body' (map report_of (snd (resolve_def params ploc (UBlock ss)))) /\
-     occs body' = map ren_of (fst (resolve_def params ploc (UBlock ss))) /\
-     Inv env' (snd (resolve (UBlock ss) (declare_all params ploc st0))))
+       Renamed body' (map report_of (snd (stk_resolve_def params ploc (UBlock ss)))) /\
+     occs body' = map ren_of (fst (stk_resolve_def params ploc (UBlock ss))) /\
+     Inv env' (snd (stk_resolve (UBlock ss) (declare_all params ploc st0))))
   \/
   (exists l1 p l2, params = l1 ++ p :: l2 /\ NoDup l1 /\ In p l1 /\
      ensure_unique_variables params ploc (UBlock ss) = Collision (ParamCollision p ploc)).
@@ -469,7 +472,7 @@ Proof.
   destruct (env_of_params_spec params ploc denv_new st0 inv_initial)
     as [(env & E & I & ND & _)|(l1 & p & l2 & E & C & ND & _ & W)].
   - left. split; [exact ND|]. rewrite E.
-    destruct (resolve (UBlock ss) (declare_all params ploc st0)) as [[o sh] st'] eqn:R.
+    destruct (stk_resolve (UBlock ss) (declare_all params ploc st0)) as [[o sh] st'] eqn:R.
     destruct (visit_sim (UBlock ss) env [] _ I _ _ _ R) as (s' & env' & V & I' & _ & O).
     rewrite V. exists s', env'. cbn [fst snd app]. auto.
   - right. exists l1, p, l2. rewrite C. repeat split; auto.
@@ -482,7 +485,7 @@ Proof. intros. unfold ensure_unique_variables. rewrite H. reflexivity. Qed.
 
 Theorem renaming_preserves_binding : forall params ploc body body' reports,
   ensure_unique_variables params ploc body = Renamed body' reports ->
-  occs body' = map ren_of (fst (resolve_def params ploc body)).
+  occs body' = map ren_of (fst (stk_resolve_def params ploc body)).
 Proof.
   intros params ploc body body' reports H.
   destruct body; try (rewrite not_block_panics in H by reflexivity; discriminate).
@@ -493,7 +496,7 @@ Qed.
 
 Theorem shadowing_reports_exact : forall params ploc body body' reports,
   ensure_unique_variables params ploc body = Renamed body' reports ->
-  reports = map report_of (snd (resolve_def params ploc body)).
+  reports = map report_of (snd (stk_resolve_def params ploc body)).
 Proof.
   intros params ploc body body' reports H.
   destruct body; try (rewrite not_block_panics in H by reflexivity; discriminate).
@@ -591,10 +594,10 @@ Proof.
   inversion H2. f_equal. apply show_nat_inj. assumption.
 Qed.
 
-Lemma first_dot_unique : forall a a' s s',
-  nodot a -> nodot a' -> a ++ dot :: s = a' ++ dot :: s' -> a = a' /\ s = s'.
+Lemma first_sep_unique : forall (c : N) a a' s s',
+  ~ In c a -> ~ In c a' -> a ++ c :: s = a' ++ c :: s' -> a = a' /\ s = s'.
 Proof.
-  induction a as [|c r IH]; intros [|c' r'] s s' Ha Ha' E; simpl in E.
+  intros c. induction a as [|x r IH]; intros [|x' r'] s s' Ha Ha' E; simpl in E.
   - inversion E. auto.
   - inversion E. subst. exfalso. apply Ha'. left. reflexivity.
   - inversion E. subst. exfalso. apply Ha. left. reflexivity.
@@ -605,17 +608,53 @@ Proof.
     + subst. auto.
 Qed.
 
-Theorem ssa_keys_injective : forall v1 v2,
-  nodot (vn_name v1) -> nodot (vn_name v2) ->
-  ssa_key v1 = ssa_key v2 ->
+Lemma ident_ok_notin : forall n c, ident_ok n = true -> ident_char c = false -> ~ In c n.
+Proof.
+  unfold ident_ok. intros n c H Hc Hin. rewrite forallb_forall in H.
+  rewrite (H c Hin) in Hc. discriminate.
+Qed.
+
+(* every key format accepted by key_format_ok identifies (name, suffix), for
+   names made of identifier characters *)
+Theorem separating_key_formats_injective : forall some none,
+  key_format_ok some none = true ->
+  forall v1 v2,
+  ident_ok (vn_name v1) = true -> ident_ok (vn_name v2) = true ->
+  ssa_key_with some none v1 = ssa_key_with some none v2 ->
   vn_name v1 = vn_name v2 /\ vn_suffix v1 = vn_suffix v2.
 Proof.
-  intros [a [s|] v] [a' [s'|] v'] H1 H2 E; unfold ssa_key in E; simpl in *.
-  - destruct (first_dot_unique _ _ _ _ H1 H2 E). subst. auto.
-  - exfalso. apply H2. rewrite <- E. apply in_or_app. right. left. reflexivity.
-  - exfalso. apply H1. rewrite E. apply in_or_app. right. left. reflexivity.
-  - auto.
+  intros some none F.
+  unfold key_format_ok in F.
+  repeat match type of F with
+         | context [match ?x with _ => _ end] => is_var x; destruct x; try discriminate F
+         end.
+  match type of F with negb (ident_char ?x) = true => rename x into c end.
+  match goal with |- context [KLit (c :: ?r)] => rename r into rest end.
+  apply negb_true_iff in F.
+  intros [a [s|] v] [a' [s'|] v'] H1 H2 E; unfold ssa_key_with, render_key in E; cbn [flat_map vn_name vn_suffix] in E;
+    rewrite ?app_nil_r in E; simpl in H1, H2; cbn [vn_name vn_suffix].
+  - change ((c :: rest) ++ s) with (c :: rest ++ s) in E. change ((c :: rest) ++ s') with (c :: rest ++ s') in E.
+    destruct (first_sep_unique c _ _ _ _ (ident_ok_notin _ _ H1 F) (ident_ok_notin _ _ H2 F) E) as [Ea Es].
+    apply app_inv_head in Es. subst. auto.
+  - exfalso. apply (ident_ok_notin _ _ H2 F). rewrite <- E. apply in_or_app. right. left. reflexivity.
+  - exfalso. apply (ident_ok_notin _ _ H1 F). rewrite E. apply in_or_app. right. left. reflexivity.
+  - subst. auto.
 Qed.
+
+(* the decision for the format read from ssa_impl.rs (Gen.SsaKey) *)
+Lemma ssa_key_format_separates : key_format_ok version_key_some version_key_none = true.
+Proof. vm_compute. reflexivity. Qed.
+
+Theorem ssa_keys_injective : forall v1 v2,
+  ident_ok (vn_name v1) = true -> ident_ok (vn_name v2) = true ->
+  ssa_key v1 = ssa_key v2 ->
+  vn_name v1 = vn_name v2 /\ vn_suffix v1 = vn_suffix v2.
+Proof. exact (separating_key_formats_injective _ _ ssa_key_format_separates). Qed.
+
+(* every access to the version maps in ssa_impl.rs uses the result of version_key *)
+Lemma ssa_maps_keyed_by_version_key :
+  version_map_accesses <> [] /\ forallb (fun a => snd (snd a)) version_map_accesses = true.
+Proof. split; [vm_compute; discriminate|vm_compute; reflexivity]. Qed.
 
 (* D20: the key used before the repair identifies x with suffix 0 and the identifier x_0 *)
 Theorem ssa_keys_injective_refuted : exists v1 v2,
@@ -648,7 +687,7 @@ Definition decl_ids (o : list rocc) : list (name * nat) :=
 Lemma decl_ids_app : forall a b, decl_ids (a ++ b) = decl_ids a ++ decl_ids b.
 Proof. intros. apply flat_map_app. Qed.
 
-Lemma decl_ids_uses : forall st l, decl_ids (map (use_occ OUse st) l) = [].
+Lemma decl_ids_uses : forall st l, decl_ids (map (stk_use_occ OUse st) l) = [].
 Proof. induction l; simpl; auto. Qed.
 
 Lemma decl_names_ren : forall o,
@@ -681,14 +720,14 @@ Proof.
 Qed.
 
 Definition ids_ok (s : ustmt) : Prop :=
-  forall st o sh st', resolve s st = (o, sh, st') ->
+  forall st o sh st', stk_resolve s st = (o, sh, st') ->
   NoDup (decl_ids o) /\
   (forall n k, In (n, k) (decl_ids o) ->
      count n (scount st) <= k < count n (scount st') /\ In n (declared s)) /\
   (forall n, count n (scount st) <= count n (scount st')).
 
 Definition ids_ok_list (ss : list ustmt) : Prop :=
-  forall st o sh st', resolve_list resolve ss st = (o, sh, st') ->
+  forall st o sh st', resolve_list stk_resolve ss st = (o, sh, st') ->
   NoDup (decl_ids o) /\
   (forall n k, In (n, k) (decl_ids o) ->
      count n (scount st) <= k < count n (scount st') /\ In n (flat_map declared ss)) /\
@@ -716,8 +755,8 @@ Lemma ids_ok_list_of : forall ss, Forall ids_ok ss -> ids_ok_list ss.
 Proof.
   induction 1 as [|s ss Hs _ IH]; intros st o sh st' R; simpl in R.
   - inversion R; subst. simpl. split; [constructor|]. split; [intros n k []|auto].
-  - destruct (resolve s st) as [[o1 sh1] st1] eqn:R1.
-    destruct (resolve_list resolve ss st1) as [[o2 sh2] st2] eqn:R2.
+  - destruct (stk_resolve s st) as [[o1 sh1] st1] eqn:R1.
+    destruct (resolve_list stk_resolve ss st1) as [[o2 sh2] st2] eqn:R2.
     inversion R; subst.
     destruct (Hs _ _ _ _ R1) as (N1 & Rg1 & M1). destruct (IH _ _ _ _ R2) as (N2 & Rg2 & M2).
     cbn [flat_map].
@@ -729,34 +768,34 @@ Lemma resolve_ids_ok : forall s, ids_ok s.
 Proof.
   induction s using ustmt_ind_nested; intros st o sh st' R.
   - (* UBlock *)
-    apply ids_ok_list_of in H. cbn [resolve] in R.
-    destruct (resolve_list resolve ss (push st)) as [[o1 sh1] st1] eqn:R1. inversion R; subst.
+    apply ids_ok_list_of in H. cbn [stk_resolve] in R.
+    destruct (resolve_list stk_resolve ss (push st)) as [[o1 sh1] st1] eqn:R1. inversion R; subst.
     exact (H _ _ _ _ R1).
   - (* UInit *)
-    apply ids_ok_list_of in H. cbn [resolve] in R. exact (H _ _ _ _ R).
+    apply ids_ok_list_of in H. cbn [stk_resolve] in R. exact (H _ _ _ _ R).
   - (* UDecl *)
-    cbn [resolve] in R. inversion R; subst. clear R.
+    cbn [stk_resolve] in R. inversion R; subst. clear R.
     rewrite decl_ids_app, decl_ids_uses. cbn [app decl_ids flat_map declared].
     split; [constructor; [intros []|constructor]|]. split.
     + intros m j [E|[]]. inversion E; subst. rewrite count_declare, ident_eqb_refl.
       split; [lia|left; reflexivity].
     + intros m. rewrite count_declare. destruct (ident_eqb m n); lia.
   - (* USubst *)
-    cbn [resolve] in R. inversion R; subst. clear R.
-    unfold decl_ids. cbn [flat_map use_occ app]. fold (decl_ids (map (use_occ OUse st') uses)).
+    cbn [stk_resolve] in R. inversion R; subst. clear R.
+    unfold decl_ids. cbn [flat_map stk_use_occ app]. fold (decl_ids (map (stk_use_occ OUse st') uses)).
     rewrite decl_ids_uses. split; [constructor|]. split; [intros m j []|auto].
   - (* UExpr *)
-    cbn [resolve] in R. inversion R; subst. clear R.
+    cbn [stk_resolve] in R. inversion R; subst. clear R.
     rewrite decl_ids_uses. split; [constructor|]. split; [intros m j []|auto].
   - (* UWhile *)
-    cbn [resolve] in R. destruct (resolve s st) as [[o1 sh1] st1] eqn:R1. inversion R; subst. clear R.
+    cbn [stk_resolve] in R. destruct (stk_resolve s st) as [[o1 sh1] st1] eqn:R1. inversion R; subst. clear R.
     rewrite decl_ids_app, decl_ids_uses. cbn [app declared]. exact (IHs _ _ _ _ R1).
   - (* UIf, no else *)
-    cbn [resolve] in R. destruct (resolve s st) as [[o1 sh1] st1] eqn:R1. inversion R; subst. clear R.
+    cbn [stk_resolve] in R. destruct (stk_resolve s st) as [[o1 sh1] st1] eqn:R1. inversion R; subst. clear R.
     rewrite decl_ids_app, decl_ids_uses. cbn [app declared]. rewrite app_nil_r. exact (IHs _ _ _ _ R1).
   - (* UIf with else *)
-    cbn [resolve] in R. destruct (resolve s1 st) as [[o1 sh1] st1] eqn:R1.
-    destruct (resolve s2 st1) as [[o2 sh2] st2] eqn:R2. inversion R; subst. clear R.
+    cbn [stk_resolve] in R. destruct (stk_resolve s1 st) as [[o1 sh1] st1] eqn:R1.
+    destruct (stk_resolve s2 st1) as [[o2 sh2] st2] eqn:R2. inversion R; subst. clear R.
     rewrite decl_ids_app, decl_ids_uses. cbn [app declared].
     destruct (IHs1 _ _ _ _ R1) as (N1 & Rg1 & M1). destruct (IHs2 _ _ _ _ R2) as (N2 & Rg2 & M2).
     apply (ids_ok_app o1 o2 (fun n => count n (scount st)) (fun n => count n (scount st1))
@@ -791,7 +830,7 @@ Proof.
     rewrite E in H; [|discriminate].
   inversion H; subst b. clear H H2 E.
   rewrite resolve_def_eq in O.
-  destruct (resolve (UBlock ss) (declare_all params ploc st0)) as [[o sh] st'] eqn:R.
+  destruct (stk_resolve (UBlock ss) (declare_all params ploc st0)) as [[o sh] st'] eqn:R.
   cbn [fst] in O.
   destruct (resolve_ids_ok (UBlock ss) _ _ _ _ R) as (N & Rg & _).
   set (vn := fun p : name * nat => vname_of (fst p) (snd p)).
